@@ -583,6 +583,34 @@ func (env *CEnv) quant(q *EQuant) CVal {
 	return CVal{T: Term{"(" + kw + " (" + strings.Join(binders, " ") + ") " + s + ")", SBool}, Type: tBool}
 }
 
+// inferTsubst extends a type substitution with the type arguments of an
+// instantiated generic type (e.g. *Map[string,any] gives K=string, V=any), so
+// that predicates written over K, V can be used at instances.
+func inferTsubst(cur map[string]types.Type, t types.Type) map[string]types.Type {
+	if t == nil {
+		return cur
+	}
+	if p, ok := t.Underlying().(*types.Pointer); ok {
+		t = p.Elem()
+	}
+	n, ok := types.Unalias(t).(*types.Named)
+	if !ok || n.TypeArgs().Len() == 0 {
+		return cur
+	}
+	tps := n.Origin().TypeParams()
+	out := map[string]types.Type{}
+	for k, v := range cur {
+		out[k] = v
+	}
+	for i := 0; i < tps.Len() && i < n.TypeArgs().Len(); i++ {
+		name := tps.At(i).Obj().Name()
+		if _, has := out[name]; !has {
+			out[name] = n.TypeArgs().At(i)
+		}
+	}
+	return out
+}
+
 func sanitizeName(s string) string {
 	var b strings.Builder
 	for _, r := range s {
@@ -739,6 +767,10 @@ func (env *CEnv) call(c *ECall) CVal {
 	case "zero":
 		ty := env.run.eng.resolveType(c.TArgs[0], env.pkg, env.tsubst)
 		return CVal{T: reg.Zero(reg.SortOf(ty)), Type: ty}
+	case "contains":
+		a := env.eval(c.Args[0])
+		b := env.eval(c.Args[1])
+		return CVal{T: app(SBool, "str.contains", a.T, b.T), Type: tBool}
 	case "hasPrefix":
 		s := env.eval(c.Args[0])
 		p := env.eval(c.Args[1])
@@ -782,6 +814,7 @@ func (env *CEnv) call(c *ECall) CVal {
 		n.pkg = m.Pkg
 		for i, p := range m.Params {
 			n.vars[p] = env.eval(c.Args[i])
+			n.tsubst = inferTsubst(n.tsubst, n.vars[p].Type)
 		}
 		// macro bodies see only their parameters and globals
 		r := n.eval(m.Body)
@@ -982,6 +1015,7 @@ func (env *CEnv) split(e Expr, decls []string, hyps []Term, out *[]Goal) {
 			n.pkg = m.Pkg
 			for i, p := range m.Params {
 				n.vars[p] = env.eval(x.Args[i])
+				n.tsubst = inferTsubst(n.tsubst, n.vars[p].Type)
 			}
 			n.split(m.Body, decls, append(append([]Term(nil), hyps...), env.takeFacts()...), out)
 			return
